@@ -4,30 +4,36 @@ from vlib import core
 
 META = {
     "level": "proof",
-    "text": ("Coq theorem snapshot_isolation: for every well-formed database and EVERY history of open/next/close of calls, assertz, asserta, "
-             "retract (once and as a re-entrant generator), retractall and clause listings, in any interleaving and nesting, the impl-mirror "
-             "(clause chains with birth/death stamps, global clock, per-call cc, the liveness test `birth < cc && Finite(cc) <= death`, "
-             "look-ahead for the next living clause) yields exactly what the snapshot specification yields (each call delivers the clauses "
-             "that were alive when it started, in order). asserta_front / assertz_back / retract_first_visible / retract_reentrant / "
-             "later_calls_see_updates are theorems over the same mirror. The mirror is tied to the code differentially: generated drivers "
-             "(conjunctions of generator calls and updates executed by chronological backtracking, several partially consumed calls open "
-             "at once, indexed and unindexed first arguments) are run on the implementation and their complete event log is compared in "
-             "Coq with the log the model computes for the same driver (driver_log_is_spec links that log to the specification)."),
-    "note": ("Trusted: Coq kernel + vm_compute; the harness vrun; the Python driver generator and log conversion. Modelled, not verified: "
-             "the WAM (chronological backtracking of the driver conjunction, cut of once/->), first-argument indexing and head unification "
-             "(abstracted into kmatch: a clause matches a call iff the first arguments unify), the '$clause' twin predicate behind clause/2 "
-             "and retract/1 (abstracted into the same chain). abolish/1 is NOT covered (partial w.r.t. the property text). "
+    "text": ("Coq theorem snapshot_isolation: start a call in ANY well-formed machine state and let ANY history follow (assertz, asserta, "
+             "once(retract), retractall, retract/1 generators being advanced, other calls being opened, advanced and cut, listings; any "
+             "interleaving and nesting): the answers of the impl-mirror (clause chains with birth/death stamps, global clock, per-call cc kept "
+             "in the choice point, the liveness test `birth < cc && Finite(cc) <= death`, look-ahead for the next living clause) are exactly "
+             "the clauses alive and matching when the call started, in order. mirror_refines_snapshot_spec extends this to every observation "
+             "of every history (the mirror equals a specification with plain lists and copied snapshots); asserta_front, assertz_back, "
+             "retract_first_visible, retract_reentrant, later_calls_see_updates are theorems over the same mirror. The mirror is tied to the "
+             "code differentially: generated drivers (conjunctions of generator calls and updates executed by chronological backtracking, "
+             "several partially consumed calls open at once, indexed and unindexed first arguments) run on the implementation and their "
+             "complete event log is compared in Coq with the log of the model for the same driver (driver_log_is_spec: that log is the "
+             "specification's log; check_run_meaning: the comparison is equality of logs)."),
+    "note": ("Trusted: Coq kernel + vm_compute; the harness vrun; the Python driver generator, the log conversion and the compact string "
+             "channel decoded by check_s. Modelled, not verified: the WAM control of the driver (chronological backtracking, cut of "
+             "once/->), head unification and first-argument indexing (abstracted into kmatch: a clause matches a call iff the first "
+             "arguments unify; indexed and unindexed paths are only distinguished by the generator), the '$clause' twin predicate behind "
+             "clause/2 and retract/1 (same chain in the model). abolish/1 is NOT in the model (the property text mentions it; observed "
+             "by hand only). Failure keys: luv-core:* / retry-stale-cc = deviation on predicates without any constant first argument "
+             "(pure stamp machinery); dyn-index:* = deviation on predicates whose first-argument index is maintained incrementally. "
              "No axioms (all theorems closed under the global context)."),
-    "technique": "Coq proof (snapshot_isolation and companions) over an impl-mirror model + differential correspondence evaluated in Coq",
+    "technique": "Coq proof (snapshot_isolation, refinement of a snapshot specification) over an impl-mirror model + differential correspondence evaluated in Coq",
     "design_ref": "DESIGN.md section 8, C09",
     "coq_targets": ["C09/Props.vo"],
     "coq_dirs": ["C09"],
     "props": "C09/Props.v",
     "trusted_base": ["Coq 8.16.1 kernel, vm_compute (no native_compute)", "harness/vrun + tools/vlib (correspondence)",
-                     "Python driver generator and log conversion (checks/C09.py)",
+                     "Python driver generator, log conversion and string channel (checks/C09.py, check_s in coq/C09/Model.v)",
                      "WAM control (backtracking, cut), indexing and unification modelled abstractly, not verified"],
     "assumptions": ["clause uids handed out by the driver counter play the role of code addresses (unique per asserted clause)",
-                    "abolish/1 is outside the model"],
+                    "abolish/1 is outside the model",
+                    "the correspondence covers predicates of arity 2 in module user, facts and rules with a single unification in the body"],
 }
 
 IMPORTS = "From V Require Import C09.Model.\nOpen Scope N_scope."
@@ -502,7 +508,7 @@ class Shrinker:
 def run(ctx):
     import time
     rng = ctx.rng
-    n_cases = ctx.scale(2400, 60000)
+    n_cases = ctx.scale(1800, 60000)
     cases, mlogs, infos = [], [], []
     seen = set()
     dropped = 0
@@ -527,7 +533,8 @@ def run(ctx):
     # the oracle: the Coq model evaluates every driver and compares the complete log
     bools = [scase(case, lg if (lg is not None and st == "ok") else []) for case, (st, lg) in zip(cases, outs)]
     t0 = time.time()
-    bad, errs = core.coq_eval_bools(ctx.prop, IMPORTS, bools, chunk=200)
+    chunk = max(100, min(400, -(-len(bools) // core.NPROC)))
+    bad, errs = core.coq_eval_bools(ctx.prop, IMPORTS, bools, chunk=chunk)
     t_coq = time.time() - t0
     tie_breaks = [{"kind": "coq-eval", "what": "model evaluation shard failed", "detail": t} for _, t in errs]
     bad = set(bad)
@@ -561,7 +568,7 @@ def run(ctx):
         d, key = classify(cases[n], mlogs[n], st, lg)
         fail_kinds[key + "/" + st.split(":")[0]] = fail_kinds.get(key + "/" + st.split(":")[0], 0) + 1
         by_key.setdefault(key, []).append((n, st, lg, d))
-    shr = Shrinker(ctx, time.time() + ctx.scale(45, 300))
+    shr = Shrinker(ctx, time.time() + ctx.scale(25, 300))
     for key in sorted(by_key):
         for (n, st, lg, d) in by_key[key][:2]:
             c = shr.shrink(cases[n], key)
